@@ -120,13 +120,14 @@ MODULES = ['base', 'Angle', 'Epoch', 'Interpolation', 'CurveFitting', 'Coordinat
 
 
 def _plain(v, d=0):
-    """True for nested list/tuple/number/str data that pickle can serialise at C speed."""
+    """True for nested list/tuple/number/str data that pickle can serialise at C speed (decided on
+    the leading elements; whatever sits deeper is still pickled, deterministically, by value)."""
     if isinstance(v, (float, int, str, bool, type(None))):
         return True
     if isinstance(v, (list, tuple)):
         if d > 1:
-            return True   # deep coefficient tables: trust the outer levels, pickle validates the rest
-        return all(_plain(x, d + 1) for x in v[:50])
+            return True
+        return all(_plain(x, d + 1) for x in v[:3])
     return False
 
 
